@@ -56,6 +56,7 @@ class ParserWalker(object):
         self.may_raise = may_raise_summary(port, modname)
         self.ctx_param = 'query_context'
         self.actions_var = self._find_actions_var()
+        self.flag_aliases = {}
         self.action_aliases = self._find_action_aliases()
 
     def _find_actions_var(self):
@@ -83,6 +84,9 @@ class ParserWalker(object):
                 k = const_value(v.slice, self.consts)
                 if isinstance(k, str):
                     out[name] = k
+            elif isinstance(v, (ast.Compare, ast.BoolOp)) or (isinstance(v, ast.UnaryOp) and isinstance(v.op, ast.Not)) or (isinstance(v, ast.Call) and isinstance(v.func, ast.Attribute) and v.func.attr == 'hasOwnProperty'):
+                # a flag holding a test computed once (`count_distinct = 'distinct_count' in select_action`): evaluated through its definition
+                self.flag_aliases[name] = v
         return out
 
     # ---- atoms
@@ -127,6 +131,8 @@ class ParserWalker(object):
         return None
 
     def eval_cond(self, e, atoms, opaque):
+        if isinstance(e, ast.Name) and e.id in self.flag_aliases:
+            return self.eval_cond(self.flag_aliases[e.id], atoms, opaque)
         a = self.atom(e)
         if a is not None:
             name, neg = a
